@@ -310,22 +310,22 @@ var vSmallVocab = []string{"aa", "bb", "cc"}
 
 // vSmallCorpusShapes: documents over the small vocabulary (indices).
 var vSmallCorpusShapes = [][][]int{
-	{{0, 1, 2, 0, 1}},                         // distinct-ish
-	{{0, 0, 0, 0, 0}},                         // fully repetitive
-	{{0, 1, 0, 1, 0, 1}},                      // period 2
-	{{0, 1, 2, 2, 1, 0}},                      // palindrome
-	{{0, 1, 2, 0, 1, 2, 0}},                   // period 3
-	{{0, 0, 1, 1, 2, 2, 0, 0}},                // doubled
-	{{0, 1, 2, 1, 0, 2, 2, 1}},                // irregular
-	{{0, 1, 1, 1, 1, 2}},                      // run inside
-	{{0, 1, 2, 0, 1}, {0, 1, 2, 0, 1, 2, 1}},  // nested documents
-	{{0, 1, 2, 0, 1}, {0, 1, 2, 0, 1}},        // identical documents, different names
-	{{0, 1, 2, 0, 1}, {2, 1, 0, 2, 1, 0}},     // reversed pair
+	{{0, 1, 2, 0, 1}},                        // distinct-ish
+	{{0, 0, 0, 0, 0}},                        // fully repetitive
+	{{0, 1, 0, 1, 0, 1}},                     // period 2
+	{{0, 1, 2, 2, 1, 0}},                     // palindrome
+	{{0, 1, 2, 0, 1, 2, 0}},                  // period 3
+	{{0, 0, 1, 1, 2, 2, 0, 0}},               // doubled
+	{{0, 1, 2, 1, 0, 2, 2, 1}},               // irregular
+	{{0, 1, 1, 1, 1, 2}},                     // run inside
+	{{0, 1, 2, 0, 1}, {0, 1, 2, 0, 1, 2, 1}}, // nested documents
+	{{0, 1, 2, 0, 1}, {0, 1, 2, 0, 1}},       // identical documents, different names
+	{{0, 1, 2, 0, 1}, {2, 1, 0, 2, 1, 0}},    // reversed pair
 	{{0, 0, 1, 0, 0}, {1, 1, 0, 1, 1}, {2, 0, 2, 1, 2, 0}},
-	{{0, 1, 2, 0, 1, 2, 0, 1, 2, 0}},          // long periodic
-	{{1, 2, 0, 0, 2, 1, 1, 0, 2}},             // 9 words
-	{{0, 1, 2, 0}, {1, 2, 0, 1}},              // rotations
-	{{0, 1, 0, 2, 0, 1, 0}, {0, 2, 0}},        // short second doc
+	{{0, 1, 2, 0, 1, 2, 0, 1, 2, 0}},   // long periodic
+	{{1, 2, 0, 0, 2, 1, 1, 0, 2}},      // 9 words
+	{{0, 1, 2, 0}, {1, 2, 0, 1}},       // rotations
+	{{0, 1, 0, 2, 0, 1, 0}, {0, 2, 0}}, // short second doc
 }
 
 func vShapeWords(shape []int) []string {
